@@ -91,7 +91,9 @@ HInst(q, r, j) ==
                     /\ IF tail THEN i > r /\ F[i].inc >= j
                        ELSE IF k.resume = "after" THEN i > k.after ELSE TRUE
       \* what the instance is shown, in id order
-      Vis == {i \in Idx : F[i].ctx = c /\ F[i].hid # r /\ InRange(i) /\ ~(OwnReg(i) /\ i <= r)}
+      \* (its own outputs are not shown to it - except a .register / .unregister of its own name that it
+      \* appended itself: the lifecycle check in Handler::serve comes before the own-output filter)
+      Vis == {i \in Idx : F[i].ctx = c /\ (F[i].hid # r \/ OwnReg(i)) /\ InRange(i) /\ ~(OwnReg(i) /\ i <= r)}
       u == IF Unr = {} THEN 0 ELSE Min(Unr)              \* the .unregistered frame
       End == IF u # 0 /\ F[u].fid >= 1 THEN F[u].fid ELSE N + 1
       Trigs == {F[o].fid : o \in Out}
